@@ -1,5 +1,6 @@
 use crate::css::{CssString, InvalidCss, Value, is_function_name};
 use crate::value::{ListSeparator, Numeric};
+use std::cmp::Ordering;
 use std::fmt;
 
 /// An operator that can be used in a sass value.
@@ -61,16 +62,35 @@ impl Operator {
                 _ => None,
             }
         }
+        fn ord(
+            a: &Value,
+            b: &Value,
+            op: &dyn Fn(Ordering) -> bool,
+        ) -> Option<Value> {
+            let ordering = match (a, b) {
+                (Value::Numeric(a, _), Value::Numeric(b, _)) => {
+                    if a.is_no_unit() || b.is_no_unit() {
+                        // A unitless number takes the unit of the other.
+                        a.value.partial_cmp(&b.value)
+                    } else {
+                        a.partial_cmp(b)
+                    }
+                }
+                (Value::Literal(_), Value::Literal(_)) => a.partial_cmp(b),
+                _ => return None,
+            };
+            Some(Value::from(ordering.is_some_and(op)))
+        }
         Ok(match *self {
             Self::And => Some(if a.is_true() { b } else { a }),
             Self::Or => Some(if a.is_true() { a } else { b }),
             Self::Equal => Some(Value::from(a == b)),
             Self::EqualSingle => cmp(a, b, &|a, b| a == b),
             Self::NotEqual => Some(Value::from(a != b)),
-            Self::Greater => cmp(a, b, &|a, b| a > b),
-            Self::GreaterE => cmp(a, b, &|a, b| a >= b),
-            Self::Lesser => cmp(a, b, &|a, b| a < b),
-            Self::LesserE => cmp(a, b, &|a, b| a <= b),
+            Self::Greater => ord(&a, &b, &Ordering::is_gt),
+            Self::GreaterE => ord(&a, &b, &Ordering::is_ge),
+            Self::Lesser => ord(&a, &b, &Ordering::is_lt),
+            Self::LesserE => ord(&a, &b, &Ordering::is_le),
             Self::Plus => match (a, b) {
                 (Value::Numeric(a, _), Value::Numeric(b, _)) => {
                     if a.unit == b.unit || b.is_no_unit() {
